@@ -19,6 +19,7 @@ package vgirpc
 // schema differs from the writer's.
 
 import (
+	"bytes"
 	"errors"
 	"io"
 	"net/http"
@@ -162,8 +163,38 @@ func verifStreamOf(r *ipc.Reader) *verifInStream {
 	panic("verif ipc: unknown reader")
 }
 
+// verifConn is the connection's byte stream (pipe / socket). Reads of IPC
+// streams from it are served from the input queue in order.
+type verifConn struct{ reads int }
+
+func (c *verifConn) Read(p []byte) (int, error) { panic("verifConn is read through the abstract IPC reader only") }
+
+// verifSink is the connection's write side.
+type verifSink struct{ n int }
+
+func (s *verifSink) Write(p []byte) (int, error) { s.n += len(p); return len(p), nil }
+
+var verifHeaderStream *verifInStream // what an in-memory header IPC blob ('H'...) decodes to
+
 func verifIpcNewReader(r io.Reader, opts ...ipc.Option) (*ipc.Reader, error) {
 	verifLastRdSrc = r
+	// in-memory blobs produced by stubbed serialisers are recognised by their first byte
+	if br, ok := r.(*bytes.Reader); ok && br.Len() > 0 {
+		b, _ := br.ReadByte()
+		_ = br.UnreadByte()
+		if b == 'H' {
+			st := &verifInStream{failAt: -1, opened: true}
+			if verifHeaderStream != nil {
+				cp := *verifHeaderStream
+				st = &cp
+				st.opened = true
+			}
+			rd := &ipc.Reader{}
+			verifReaders = append(verifReaders, rd)
+			verifReaderSt = append(verifReaderSt, st)
+			return rd, nil
+		}
+	}
 	if verifInNext > 0 {
 		prev := verifInQueue[verifInNext-1]
 		if prev.opened && !prev.atEOS && !prev.bad {
